@@ -4,7 +4,9 @@
 use crate::env::{initial_snapshot, run_real, CtxKind, Entry, Ev, Outcome, Path, Setup};
 use crate::json::Json;
 use crate::prog::Expr;
-use crate::refint::{run_ref, tree_has_assignment, tree_has_op_assignment, Delegate};
+use crate::refint::{
+    assignment_targets_are_names, run_ref, tree_has_assignment, tree_has_op_assignment, Delegate,
+};
 use crate::rng::{Fnv, Rng};
 use crate::stats::Stats;
 use evalexpr::{build_operator_tree, DefaultNumericTypes, Node};
@@ -436,9 +438,11 @@ pub fn check_storeless(case: &Case, tree: &Node, src: Option<&str>, cx: &mut Ctx
     cx.stats.inc("c11.nostore_context_evaluations");
     // reference-free: on a context that cannot store, the mutable entry must reject an
     // assignment whenever the read-only entry does; if all assignment operators of the tree are
-    // plain `=`, both entries must behave identically (same history, same result)
+    // plain `=` with an identifier (or string constant) as target, both entries must behave
+    // identically (same history, same result). (A computed target that is not a string makes the
+    // mutable entry fail with ExpectedString before it asks the context to store: `true = f()`.)
     if tree_has_assignment(tree) {
-        if !tree_has_op_assignment(tree) {
+        if !tree_has_op_assignment(tree) && assignment_targets_are_names(tree) {
             if let Some(class) = diff_class(&o_imm, &o_mut, true) {
                 return Some(finding(
                     prop,
